@@ -69,8 +69,21 @@ def draw(rng, alg):
         m = rng.choice([3, 4, 6, 8, 12, 20, 40, 60])
         Cs = rng.choice([12, 30, 60, 100, 600, 1000])
         v = []
-        style = rng.choice(["mixed", "bigsmall", "medium", "thirds"])
-        for _ in range(m):
+        style = rng.choice(["mixed", "bigsmall", "medium", "thirds", "templates", "templates"])
+        if style == "templates":
+            # a few bin TEMPLATES replicated many times (families such as "one bin [S-1,1] plus n bins [S/2-1, S/2-1, 2]"): systematic behaviour of a
+            # heuristic over a long run of identical situations only shows here
+            m = rng.choice([6, 12, 30, 60, 100, 150])
+            eps = rng.choice([1, 1, 2, max(1, Cs // 100)])
+            lib = [[Cs - eps, eps], [Cs // 2 - eps, Cs // 2 - eps, Cs - 2 * (Cs // 2 - eps)], [Cs // 2 + eps, Cs - (Cs // 2 + eps)],
+                   [Cs // 3, Cs // 3, Cs - 2 * (Cs // 3)], [Cs // 3 + eps, Cs // 3 + eps, Cs - 2 * (Cs // 3 + eps)], [Cs // 2, Cs // 2] if Cs % 2 == 0 else [Cs // 2, Cs - Cs // 2],
+                   [Cs // 4] * 3 + [Cs - 3 * (Cs // 4)], gen.split_total(rng, Cs, rng.randint(2, 5))]
+            lib = [t for t in lib if all(x >= 1 for x in t) and sum(t) == Cs]
+            chosen = rng.sample(lib, min(len(lib), rng.randint(1, 3)))
+            weights = [rng.choice([1, 1, 5, 20]) for _ in chosen]
+            for _ in range(m):
+                v += rng.choices(chosen, weights)[0]
+        for _ in range(m if style != "templates" else 0):
             if style == "mixed":
                 v += gen.split_total(rng, Cs, rng.randint(1, 5))
             elif style == "bigsmall":
